@@ -80,8 +80,10 @@ class ifthenelse(Command):
     def prec(self, tok: Union[Token, number]) -> int:
         """Return the operator precedence for the given token"""
         if tok in ['>', '<', '=']:
+            return 3
+        if isinstance(tok, (_not, NOT)):
             return 2
-        if isinstance(tok, (_and, AND, _or, OR, _not, NOT)):
+        if isinstance(tok, (_and, AND, _or, OR)):
             return 1
         return 0
 
@@ -113,6 +115,10 @@ class ifthenelse(Command):
                         break
                     postfix.append(stack.pop())
                 stack.pop()  # (
+            elif isinstance(tok, (_not, NOT)):
+                # \not is a prefix operator: it binds tighter than \and and
+                # \or and never completes an operator that precedes it
+                stack.append(tok)
             else:
                 # Handle operators and precedence
                 while stack and self.prec(tok) <= self.prec(stack[-1]):
